@@ -129,6 +129,18 @@ pub struct File {
 impl File {
     pub async fn open<P: AsRef<Path>>(path: P) -> io::Result<File> {
         let p = sp(&path);
+        {
+            use std::os::unix::fs::FileTypeExt;
+            if std::fs::metadata(&p).map(|m| m.file_type().is_fifo()).unwrap_or(false) {
+                // open(2) of a named pipe without a writer never returns: in simulated time
+                // the calling task simply never becomes ready again
+                simrt::rt::with(|rt| {
+                    rt.ev("fs-blocked-forever", &format!("open {}", simrt::trace::esc_path(&p)));
+                    rt.note_parked("open of a named pipe without writer");
+                });
+                return std::future::pending::<io::Result<File>>().await;
+            }
+        }
         let inner = blocking_op("open", &p, || std::fs::File::open(&p)).await?;
         Ok(File { inner, path: p })
     }
